@@ -375,6 +375,10 @@ pub enum Ev {
     PollStart,
     PollEnd,
     Taken(EvSnap),
+    /// After taking an event the observer could not get a lock it shares with the machine.
+    ObserverBlocked { on: &'static str },
+    /// The embedder changed the id of the system app in place (channel change).
+    EmbedderRename { to: String },
     StreamEnd,
     // --- control
     CtlSend { req: usize, handle: usize, on_demand: bool },
@@ -687,6 +691,9 @@ pub struct CheckScript {
     pub detach_last_progress: bool,
     /// perform_reboot returns an error (the device did not reboot)
     pub reboot_fails: bool,
+    /// The clocks are stepped by (wall ns, mono ns) while the install runs (a time sync arriving during the
+    /// download), just before the installer returns.
+    pub install_clock_step: Option<(i128, i128)>,
 }
 impl Default for CheckScript {
     fn default() -> Self {
@@ -702,6 +709,7 @@ impl Default for CheckScript {
             reboot_allowed: vec![],
             detach_last_progress: false,
             reboot_fails: false,
+            install_clock_step: None,
         }
     }
 }
